@@ -218,6 +218,7 @@ REG['C13'] = {
     ],
     'L': [
         dict(id='c13_solar', check='c13_solar', range=(1, 9999), chunks=64, exhaustive=True, domain='every civil year/month', clause='day-of-year and year length agree with the month lists'),
+        dict(id='L-NEW', check='l_new', range=(0, 9999), chunks=32, exhaustive=True, domain='every lunation of lunar years 0..9999', clause='a lunar month has 29 or 30 days and a lunar year 12 or 13 months (the lengths the lists below are compared with)'),
         dict(id='c13_lunar', check='c13_lunar', range=(0, 9998), chunks=64, domain='every lunar month (days), first/mid/last day of each month (hours), every sexagenary month of every 7th year', clause='lists == their parts'),
     ],
 }
